@@ -450,6 +450,40 @@ func embeddedCanon(f *types.Var) string {
 	return f.Name()
 }
 
+// fieldByTypeName: an embedding of the reviewed tree made explicit. A path step names an embedded part by its type
+// ("config", "fallback"); on a tree where that part is held under a field name of its own (cfg *config[R]) the step
+// is the only non-embedded field of the struct whose type is (a pointer to) the unexported same-package type the step
+// names. -1 when there is none or more than one.
+func fieldByTypeName(s *types.Struct, owner types.Type, want string) int {
+	on, ok := owner.(*types.Named)
+	if !ok || on.Obj().Pkg() == nil {
+		return -1
+	}
+	idx := -1
+	for j := 0; j < s.NumFields(); j++ {
+		f := s.Field(j)
+		if f.Embedded() {
+			continue
+		}
+		t := f.Type()
+		if p, isP := t.(*types.Pointer); isP {
+			t = p.Elem()
+		}
+		n, isN := t.(*types.Named)
+		if !isN || n.Obj().Pkg() != on.Obj().Pkg() || n.Obj().Exported() || typeCanonName(n.Obj()) != want {
+			continue
+		}
+		if _, isS := n.Underlying().(*types.Struct); !isS {
+			continue
+		}
+		if idx >= 0 {
+			return -1
+		}
+		idx = j
+	}
+	return idx
+}
+
 // FieldName strips the type qualifier of a faddr/fld Aux.
 func FieldName(aux string) string { return canonicalField(aux) }
 
@@ -646,6 +680,9 @@ func (ev *Evaluator) LoadField(st *State, ptr *T, fields ...string) *T {
 					}
 				}
 				if idx < 0 {
+					idx = fieldByTypeName(s, stt, want)
+				}
+				if idx < 0 {
 					// promoted field of an embedded struct (by value or by pointer)
 					for j := 0; j < s.NumFields() && idx < 0; j++ {
 						if !s.Field(j).Embedded() {
@@ -714,8 +751,9 @@ func (ev *Evaluator) LoadField(st *State, ptr *T, fields ...string) *T {
 								next = a
 							}
 						}
+						byType := fieldByTypeName(s2, stt, next)
 						for j := 0; j < s2.NumFields(); j++ {
-							if s2.Field(j).Name() == next || embeddedCanon(s2.Field(j)) == next {
+							if s2.Field(j).Name() == next || embeddedCanon(s2.Field(j)) == next || j == byType {
 								c2 := cur
 								if c2.Typ == nil {
 									c2.Typ = typ
